@@ -34,8 +34,18 @@ def formula_case(p):
     unit norm for weight_only; declared width"""
     rng = np.random.default_rng(p['seed'])
     X = rng.uniform(-2, 2, size=(p['rows'], p['nf']))
-    ka = pykoop.RandomFourierKernelApprox(p['kernel'], n_components=p['D'], shape=p['shape'], method=p['method'],
-                                          random_state=seed_obj(p['seedtype'], p['rs'])).fit(X)
+    if p.get('history'):
+        # the estimator object was used before with other parameters, then re-parameterised and refitted
+        h = p['history']
+        ka = pykoop.RandomFourierKernelApprox(h['kernel'], n_components=h['D'], shape=h['shape'], method=h['method'],
+                                              random_state=h['rs']).fit(rng.uniform(-1, 1, size=(3, h['nf'])))
+        ka.transform(rng.uniform(-1, 1, size=(2, h['nf'])))
+        ka.set_params(kernel_or_ft=p['kernel'], n_components=p['D'], shape=p['shape'], method=p['method'],
+                      random_state=seed_obj(p['seedtype'], p['rs']))
+        ka.fit(X)
+    else:
+        ka = pykoop.RandomFourierKernelApprox(p['kernel'], n_components=p['D'], shape=p['shape'], method=p['method'],
+                                              random_state=seed_obj(p['seedtype'], p['rs'])).fit(X)
     W = ka.random_weights_
     if W.shape != (p['nf'], p['D']):
         return dict(what='random_weights_ is not (n_features, n_components)', shape=list(W.shape))
@@ -127,6 +137,12 @@ def gen_params(rng, tier):
                         seedtype=['int', 'state'][(i // 6) % 2], rs=int(rng.integers(0, 10000)),
                         nf=int(rng.integers(1, 6)), D=int(rng.choice([1, 2, 7, 40])), rows=int(rng.integers(1, 6)),
                         shape=float(rng.choice([0.2, 0.5, 1.0, 2.0, 3.0])), seed=int(rng.integers(1 << 30))))
+        if i % 3 == 2:
+            me = out[-1]
+            out[-1]['history'] = dict(kernel=kernels[int(rng.integers(3))],
+                                      method=['weight_offset', 'weight_only'][int(rng.integers(2))],
+                                      D=int(rng.choice([me['D'], me['D'], 3])), nf=int(rng.choice([me['nf'], 2])),
+                                      shape=1.5, rs=int(rng.integers(0, 100)))
     for i in range(n_l):
         out.append(dict(test='layout', kernel=kernels[i % 3], method=['weight_offset', 'weight_only'][(i // 3) % 2],
                         rs=int(rng.integers(0, 10000)), ns=int(rng.integers(1, 4)), nu=int(rng.integers(0, 3)),
